@@ -1,6 +1,6 @@
 use rustc_hash::FxHashMap;
 use typst_syntax::{
-    ast::{Args, AstNode},
+    ast::{Args, AstNode, Expr},
     Span, SyntaxKind, SyntaxNode,
 };
 
@@ -95,6 +95,16 @@ impl AttrStore {
                 is_multiline |= child.text().has_linebreak();
             }
             is_multiline |= self.compute_multiline_impl(child);
+        }
+        // A code block with several statements (or a comment) is never folded onto one line,
+        // so it is as good as written on several lines already.
+        if node.kind() == SyntaxKind::CodeBlock
+            && node.children().any(|child| {
+                child.kind() == SyntaxKind::Code
+                    && child.children().filter(|it| it.is::<Expr>()).count() > 1
+            })
+        {
+            is_multiline = true;
         }
         if is_multiline {
             self.set_multiline(node);
